@@ -483,6 +483,22 @@ func (env *cenv) binary(e *CExpr) cval {
 		}
 		return env.boolv(t)
 	case "<", "<=", ">", ">=":
+		if a.sort == "F64" || b.sort == "F64" {
+			// floating point is uninterpreted: the same comparison symbol as the code's, integer literals as f64 constants
+			lit := func(x *CExpr, v cval) string {
+				if v.sort == "F64" {
+					return v.term
+				}
+				if x.Op == "num" {
+					return env.g.s.f64lit(x.Name)
+				}
+				env.fail("comparison of a float with a non-literal integer in %s", e)
+				return ""
+			}
+			fn := q("f64." + op)
+			env.g.declareFun(fn, []string{"F64", "F64"}, "Bool")
+			return env.boolv(fmt.Sprintf("(%s %s %s)", fn, lit(e.Args[0], a), lit(e.Args[1], b)))
+		}
 		if a.sort == "String" && b.sort == "String" {
 			switch op {
 			case "<":
@@ -561,6 +577,28 @@ func (env *cenv) call(e *CExpr) cval {
 			env.fail("timescalled: the function has no foreach clause")
 		}
 		return env.intv(fmt.Sprintf("(select %s %s)", g.get(env.cur, feCalls), k.term))
+	case "totallen":
+		// totallen(s): the sum of the lengths of the elements of a []string
+		a := env.eval(args[0])
+		if a.sort != "Slice" {
+			env.fail("totallen of %s", args[0])
+		}
+		st, ok := a.typ.Underlying().(*types.Slice)
+		if !ok {
+			env.fail("totallen of %s", args[0])
+		}
+		if bt, isB := st.Elem().Underlying().(*types.Basic); !isB || bt.Info()&types.IsString == 0 {
+			env.fail("totallen needs a []string")
+		}
+		t := fmt.Sprintf("(%s (select %s (sarr %s)) (soff %s) (slen %s))", g.totalLenFun(), g.get(env.cur, g.elemArr(st.Elem())), a.term, a.term, a.term)
+		if env.cur.formal == nil && !strings.Contains(t, "|q.") {
+			key := "tlwf:" + t
+			if !g.declared[key] {
+				g.declared[key] = true
+				g.emit(fmt.Sprintf("(assert (and (>= %s 0) (=> (= (slen %s) 0) (= %s 0))))", t, a.term, t))
+			}
+		}
+		return env.intv(t)
 	case "card":
 		// card(visited): the number of keys in a visited-set
 		a := env.eval(args[0])
@@ -737,7 +775,22 @@ func (env *cenv) call(e *CExpr) cval {
 		return cval{term: g.get(env.cur, rn), sort: srt, typ: g.retTypes[ev]}
 	case "lastarg":
 		// lastarg(E, k): k-th argument (0 = receiver of a method/interface call) of the last occurrence of call event E
-		an := fmt.Sprintf("G.arg.%s.%s", args[0].Name, args[1].Name)
+		idx := args[1].Name
+		if args[1].Op == "id" {
+			// lastarg(E, <parameter name>): the position is taken from the callee's declaration
+			found := false
+			if sg := g.eng.eventSig(args[0].Name); sg != nil {
+				for k, n := range sg.names {
+					if n == idx && n != "" {
+						idx, found = fmt.Sprint(k), true
+					}
+				}
+			}
+			if !found {
+				env.fail("lastarg(%s,%s): the function the event names has no parameter of that name", args[0].Name, args[1].Name)
+			}
+		}
+		an := fmt.Sprintf("G.arg.%s.%s", args[0].Name, idx)
 		srt, ok := g.varSort[an]
 		if !ok {
 			env.fail("lastarg(%s,%s): the event never occurs in this function", args[0].Name, args[1].Name)
